@@ -16,8 +16,9 @@ The model follows the code AS REPAIRED by F23 (`stop()` clears `_accepting` unde
 publishes Stopped + not-accepting together at the end) and F41 (every invocation of a periodic handler goes through a
 guard that `cancel()` closes).
 
-Not modelled: statistics, logging, error handlers, `reset()`/restart, `SteadyTimer`, the pool (it only delegates),
-timerfd/eventfd/epoll plumbing (a wake-up is the scheduler's choice to run the `collect` step), a second concurrent `stop()`.
+Second layer (`Model/TimerSys.lean`): the timerfd/eventfd/epoll wake-up plumbing and `stop()` → `reset()` → `start()`;
+`Model/SteadyTimer.lean`: `SteadyTimer`.  Not modelled: statistics, logging, error handlers, the pool (it only delegates), a second
+concurrent `stop()`, the system-error exits of `runLoop`.
 -/
 namespace Iora.Tsvc
 
@@ -173,6 +174,18 @@ def scheduleAt (L : Limits) (s : Svc) (now tp : Int) : Svc × Nat :=
   if !s.accepting then (s, 0)                                   -- lock-free test
   else if tp - now > L.maxTimeoutNs then (s, 0)                 -- isValidTimeout
   else if !s.accepting then (s, 0)                              -- re-test under `_mutex` (same flag in one atomic step)
+  else if s.records.length ≥ L.maxTimers then (s, 0)
+  else
+    let id := s.nextId + 1
+    ({ s with nextId := id, records := s.records ++ [⟨id, tp, false, false, 0, tp, 0⟩], heap := heapPush s.heap ⟨tp, id⟩ }, id)
+
+/-- `scheduleAt`, the part BEFORE `_mutex` is taken: the lock-free `_accepting` test and `isValidTimeout` (clock `now`) -/
+def scheduleAtPre (L : Limits) (s : Svc) (now tp : Int) : Bool := s.accepting && !decide (tp - now > L.maxTimeoutNs)
+
+/-- `scheduleAt`, the locked section: `_accepting` re-tested, the limit, the insert.  Another thread may have run any number of steps
+between `scheduleAtPre` and this section (theorem `S6_concurrent`). -/
+def scheduleAtLocked (L : Limits) (s : Svc) (tp : Int) : Svc × Nat :=
+  if !s.accepting then (s, 0)
   else if s.records.length ≥ L.maxTimers then (s, 0)
   else
     let id := s.nextId + 1
